@@ -421,6 +421,89 @@ func seqArithCases() []SeqArithCase {
 	return out
 }
 
+// UnaryStepsCase: a parenthesised unary sign over several numeric items followed
+// by a filter (and optionally .abs()): the sign applies to every item, whatever
+// the following steps do with the earlier ones.
+type UnaryStepsCase struct {
+	Signs string   `json:"signs"` // "-", "+", "--", "-+" ...
+	Arr   []string `json:"arr"`   // JSON number texts
+	Op    string   `json:"op"`
+	K     int64    `json:"k"`
+	Abs   bool     `json:"abs,omitempty"`
+	Wrap  bool     `json:"wrap,omitempty"` // operand is $.a (lax unwrapping) rather than $[*]
+}
+
+func (c UnaryStepsCase) pathAndDoc() (string, string) {
+	operand, doc := "$[*]", "["+strings.Join(c.Arr, ",")+"]"
+	if c.Wrap {
+		operand, doc = "$.a", `{"a":`+doc+`}`
+	}
+	expr := operand
+	for i := len(c.Signs) - 1; i >= 0; i-- {
+		expr = "(" + string(c.Signs[i]) + expr + ")"
+	}
+	if c.Abs {
+		expr += ".abs()"
+	}
+	k := fmt.Sprint(c.K)
+	return expr + " ? (@ " + c.Op + " " + k + ")", doc
+}
+
+var checkUnarySteps = register("c13.unary_steps", func(c UnaryStepsCase) *Violation {
+	text, doc := c.pathAndDoc()
+	p, err, pan := ParseSafe(text)
+	if err != nil || pan != "" {
+		return violf("harness: %q does not parse: %v %s", text, err, pan)
+	}
+	neg := strings.Count(c.Signs, "-")%2 == 1
+	wantFor := func(un bool) ([]string, bool) {
+		var want []string
+		for _, a := range c.Arr {
+			r, ok := new(big.Rat).SetString(a)
+			if !ok {
+				return nil, false
+			}
+			if !un {
+				// decoded as float64: the item is the nearest double
+				f, _ := strconv.ParseFloat(a, 64)
+				r.SetFloat64(f)
+			}
+			if neg {
+				r.Neg(r)
+			}
+			if c.Abs {
+				r.Abs(r)
+			}
+			cmp := r.Cmp(new(big.Rat).SetInt64(c.K))
+			keep := map[string]bool{"==": cmp == 0, "!=": cmp != 0, "<": cmp < 0, "<=": cmp <= 0, ">": cmp > 0, ">=": cmp >= 0}[c.Op]
+			if keep {
+				if r.IsInt() {
+					want = append(want, r.Num().String())
+				} else {
+					want = append(want, r.RatString())
+				}
+			}
+		}
+		return want, true
+	}
+	for _, un := range []bool{false, true} {
+		want, ok := wantFor(un)
+		if !ok {
+			return violf("harness: bad number in %v", c.Arr)
+		}
+		d := MustDecode(doc, un)
+		o := RunQuery(context.Background(), p, d)
+		if o.Panic != "" || o.Class != EOK || !sameSeq(want, RenderSeq(o.Items, false)) {
+			return violf("%q on %s: the sign applies to every item, so the filter keeps %v; Query returned %s%s", text, doc, want, o, o.Panic)
+		}
+		ex := RunExists(context.Background(), p, d)
+		if ex.Panic != "" || ex.Class != EOK || ex.Bool != (len(want) > 0) {
+			return violf("%q on %s: the filter keeps %v but Exists = %v, %v%s", text, doc, want, ex.Bool, ex.Err, ex.Panic)
+		}
+	}
+	return nil
+})
+
 func TestC13(t *testing.T) {
 	ev := newEv(t, "C13")
 	ev.replayTier(t)
@@ -479,6 +562,24 @@ func TestC13(t *testing.T) {
 			}
 		}
 		ev.Exhaustive("non_singleton_and_non_numeric_operands", int64(len(cs)))
+	})
+	ev.rapidProp(t, "unary_then_steps", func(rt *rapid.T) {
+		n := rapid.IntRange(1, 5).Draw(rt, "n")
+		c := UnaryStepsCase{
+			Signs: rapid.SampledFrom([]string{"-", "+", "--", "-+", "+-", "---"}).Draw(rt, "signs"),
+			Op:    rapid.SampledFrom(cmpOps).Draw(rt, "op"),
+			K:     int64(rapid.IntRange(-4, 4).Draw(rt, "k")),
+			Abs:   rapid.IntRange(0, 3).Draw(rt, "abs") == 0,
+			Wrap:  rapid.Bool().Draw(rt, "wrap"),
+		}
+		for i := 0; i < n; i++ {
+			c.Arr = append(c.Arr, rapid.SampledFrom([]string{"0", "1", "2", "3", "-1", "-2", "-3", "2.5", "-0.5", "4", "9007199254740993", "-9223372036854775807"}).Draw(rt, fmt.Sprintf("a%d", i)))
+		}
+		key, _ := json.Marshal(c)
+		ev.Eval(string(key), n >= 2)
+		text, doc := c.pathAndDoc()
+		ev.Sample("unary_then_steps", map[string]string{"path": text, "doc": doc})
+		ev.Check(rt, "c13.unary_steps", c, checkUnarySteps(c))
 	})
 	ev.rapidProp(t, "random", func(rt *rapid.T) {
 		operand := func(l string) Operand {
